@@ -27,6 +27,8 @@ def install_recorder():
 class FakeUDPPort(object):
   """What a DatagramProtocol sees of twisted's udp.Port: loseConnection() / stopListening() close the socket for good."""
 
+  maxPacketSize = 8192      # as twisted.internet.udp.Port
+
   def __init__(self):
     self.closed = False
 
